@@ -19,6 +19,9 @@ CLAIMS = {
     "C09": ("TLA+ spec; gather maps observed from numpy on label arrays and, for the core functions, defined in TLA+ and cross-checked; TLC trace validation",
             "Every shape function / index expression is executed on arrays of pairwise distinct polynomials; the movement of positions numpy performs is observed on integer label arrays (and for reshape, transpose, concatenate and basic indexing also computed from the TLA+ gather maps of Shape.tla and compared), and TLC checks that each result element is exactly the operand element that numpy puts there, that names and dtype are preserved, plus the global clauses.",
             "DESIGN.md section 6 C09"),
+    "C10": ("TLA+ spec: reductions as folds of exact polynomial + and * over index partitions, diff/ediff1d, inner/outer/matmul, det by Leibniz expansion; TLC trace validation",
+            "sum/cumsum/mean/prod/diff/ediff1d/inner/outer/matmul/det are executed over 1-d..3-d polynomial arrays with every axis / axis-tuple / keepdims / n / prepend / append choice, through numpoly, numpy, method and ufunc.reduce/accumulate spellings; TLC recomputes each result as the finite sum / product of the operand elements in exact arithmetic from the TLA+ definitions and compares shape and every element (mean as the relation n*mean = sum).",
+            "DESIGN.md section 6 C10"),
     "C14": ("TLA+ state machine of the option record and the global_options stack; TLC exhaustive bounded model with action properties; every edge of the dumped graph replayed on the real library; TLC trace validation of random histories",
             "The option machine is model-checked exhaustively (bounded depth and length, history hidden by a VIEW) for restore-on-every-exit, bad-key-changes-nothing, only-given-keys-change; every edge of the reachable quotient graph is replayed into the real set_options/global_options/get_options (exits by exception included) with get_options() compared to the model after every step; random histories over all twelve real keys are validated by the same specification.",
             "DESIGN.md section 6 C14"),
